@@ -145,7 +145,7 @@ fn space(r: &mut Run, name: &str, n: usize, double: bool) -> Result<(), Machiner
 
 fn run(r: &mut Run) -> Result<(), MachineryError> {
     let t = r.tier;
-    space(r, "C13/one-sequence", t.pick(4, 6), false)?;
-    space(r, "C13/two-sequences", t.pick(3, 5), true)?;
+    space(r, "C13/one-sequence", t.pick(5, 7), false)?;
+    space(r, "C13/two-sequences", t.pick(4, 6), true)?;
     Ok(())
 }
